@@ -58,7 +58,7 @@ def table_defs(exp, extra_units=()):
             f"Definition offs : table := {tab(exp['offsets'])}.\n"
             f"Definition ord : ordtab := {ordt}.\n")
 
-def ccase(m, src, tgt, res):
+def ccase(m, src, tgt, res, ref=0):
     """one ccase term from a worker result"""
     if "err" in res:
         x = f"(XErr {CERR[res['err']]})" if res["err"] in CERR else "XOther"
@@ -67,7 +67,7 @@ def ccase(m, src, tgt, res):
     else:
         x = f"(XVal {cnumq(res['m'])})"
     ukey(src); ukey(tgt)
-    return f"(MkCase {cnumq(m)} {cunit3(src)} {cunit3(tgt)} {x})"
+    return f"(MkCase {cnumq(m)} {cunit3(src)} {cunit3(tgt)} {x} {cQ(ref)})"
 
 def parse_bools(log, name):
     """value of `Eval vm_compute in <list bool>` printed after a marker line"""
@@ -107,7 +107,7 @@ def run_block(c, tag, exp, cases, results, tol, shard=200, sizes_term=None):
         if "setup_err" in res:
             continue
         try:
-            terms.append(ccase(cs["a"]["m"], res["source"], res["target"], res)); keep.append(i)
+            terms.append(ccase(cs["a"]["m"], res["source"], res["target"], res, cs.get("ref", 0))); keep.append(i)
         except OutOfModel:
             pass
     units = [results[i][k] for i in keep for k in ("source", "target")]
